@@ -226,6 +226,10 @@ func (r *Reader) ReadWord(p []byte) error {
 	case r.literal > 0:
 		r.literal--
 		_, err := io.ReadFull(r.rd, p)
+		if err == io.EOF {
+			// The stream ended inside the literal run.
+			err = io.ErrUnexpectedEOF
+		}
 		return err
 	}
 
